@@ -69,10 +69,13 @@ def gen_bigwig(rng):
     return dict(names=names, sizes=sizes, data=data, text=text, sizes_text=sizes_text, build=build)
 
 
+OVERHANG = 600
+
+
 def per_base(bw):
     arr = {}
     for nme in bw["names"]:
-        a = [None] * bw["sizes"][nme]
+        a = [None] * (bw["sizes"][nme] + OVERHANG)  # regions may run past the chromosome end: no data there
         for (s, e, v) in bw["data"][nme]:
             for i in range(s, e):
                 a[i] = v
@@ -110,6 +113,13 @@ def gen_region(rng, ivs, size):
     if k < 0.86:
         s = rng.randint(0, size - 1)
         return "single_base", s, s + 1
+    if k < 0.93:
+        # the BED region runs past the end of the chromosome (its size is still end - start; nothing is stored there)
+        if rng.random() < 0.6:
+            s = rng.randint(max(0, size - 40), size - 1)
+            return "straddling_chrom_end", s, size + rng.randint(1, OVERHANG - 50)
+        s = size + rng.randint(0, 200)
+        return "beyond_chrom_end", s, s + rng.randint(1, 300)
     s = rng.randint(0, size - 1)
     return "random", s, rng.randint(s + 1, size)
 
